@@ -65,7 +65,9 @@ pub fn scenarios(tier: &str) -> Vec<Scenario> {
         Scenario {
             name: "window-edge-after-commit-clear".into(),
             opts: Opts::new("C03", "edge"),
-            starts: vec![("S deployed in block 1, nothing committed".into(), base.clone())],
+            // (the second start: a slot holding a committed value — a key that leaves that value and returns to it between
+            // two commits has the same latest value on disk and in memory, but not the same history)
+            starts: vec![("S deployed in block 1, nothing committed".into(), base.clone()), ("slot 0 = 1, committed".into(), { let mut c = base.clone(); c.extend(block(vec![s_set(0, 0, 1)])); c.push(Step::Commit); c })],
             alphabet: edge_no_restart,
             bounds: Bounds { depth: if thorough { 5 } else { 4 }, dev: vec![2, 1, 0, 1], dev_total: 3 },
             weight: 2.0,
